@@ -246,6 +246,7 @@ def run(ctx):
         if sym:
             sym2variant.setdefault(sym, set()).add(v[2])
     variant2functor = {}
+    order_ok = {}
     try:
         pps = S.paths(PS, 2)
     except Exception as e:
@@ -259,6 +260,15 @@ def run(ctx):
             lit = strip(g[2][0])[2].strip('"')
         if lit is None:
             continue
+        if lit in WANT:
+            # operand order: the goal's terms are [left, right] = (.0, .1) of get_left_and_right's Ok value
+            a = strip(g[2][1]) if len(g[2]) > 1 else None
+            good = a is not None and a[0] == "vec" and len(a[1]) == 2
+            if good:
+                l_, r_ = strip(a[1][0]), strip(a[1][1])
+                good = l_[0] == "field" and r_[0] == "field" and l_[2] == "0" and r_[2] == "1" and l_[1] == r_[1] and \
+                    mentions(l_, lambda t: t[0] == "call" and t[1].endswith("get_left_and_right"))
+            order_ok[lit] = order_ok.get(lit, True) and good
         vs = [v for c, v, bb in p.decisions if c[0] == "variant" and isinstance(v, str) and
               v in ("Unify", "Equal", "LessThan", "LessThanOrEqual", "GreaterThan", "GreaterThanOrEqual", "Plus", "Minus", "Multiply", "Divide")]
         if vs:
@@ -273,6 +283,34 @@ def run(ctx):
         ok = len(vs) == 1 and fs == {functor} and functor in cell_fn
         ctx.ob("R4", "chain(%s)" % sym, ok, ctx.where(PS),
                "`%s` -> Infix %s -> functor %s -> %s" % (sym, sorted(vs), sorted(fs), sorted(cell_fn.get(functor, []))))
+    for lit in sorted(WANT):
+        ctx.ob("R4", "operands(%s)" % lit, order_ok.get(lit) is True, ctx.where(PS),
+               "the infix form passes [text before the symbol, text after it] as (first, second) operand" if order_ok.get(lit) else
+               "the operands of the infix form are not passed in (left, right) order")
+    GL = prog.one("parse_goals::get_left_and_right")
+    if GL is None:
+        ctx.missing("R4", "get_left_and_right")
+    else:
+        ctx.fn(GL)
+        okg, n = True, 0
+        for p in Walker(GL, max_visits=2).paths():
+            if p.end != "return" or p.ret[0] != "agg" or p.ret[2] != "Ok":
+                continue
+            n += 1
+            tup = strip(dict(p.ret[3]).get("0"))
+            if tup[0] != "tuple" or len(tup[1]) != 2:
+                okg = False
+                continue
+            def side(t):
+                # which slice of the characters a term was parsed from: "before" (..index) or "after" (index+size..)
+                if mentions(t, lambda x: x[0] == "agg" and x[1].endswith("RangeFrom")):
+                    return "after"
+                if mentions(t, lambda x: x[0] == "agg" and x[1].endswith("ops::Range") and dict(x[3]).get("start", ("", "", "", None))[3] == 0):
+                    return "before"
+                return "?"
+            if (side(tup[1][0]), side(tup[1][1])) != ("before", "after"):
+                okg = False
+        ctx.ob("R4", "left-right-split", okg and n > 0, ctx.where(GL), "get_left_and_right returns (term parsed from the text before the symbol, term parsed from the text after it)")
     # make_goal's built-in names = dispatch table names
     names = set()
     for p in Walker(MG, max_visits=2, max_paths=300000).paths():
